@@ -672,6 +672,13 @@ func SetSchema(openAPIField map[string]string, schema []byte, reset bool) error 
 	}
 
 	// use builtin version
+	if version != "" {
+		// reject an unknown version before it is selected: storing it first would let a
+		// concurrently running build load the schema of a version that does not exist
+		if _, ok := kubernetesapi.OpenAPIMustAsset[version]; !ok {
+			return fmt.Errorf("the specified OpenAPI version is not built in")
+		}
+	}
 	previousVersion := kubernetesOpenAPIVersion
 	kubernetesOpenAPIVersion = version
 	if kubernetesOpenAPIVersion == "" {
@@ -682,9 +689,6 @@ func SetSchema(openAPIField map[string]string, schema []byte, reset bool) error 
 			dropParsedSchema()
 		}
 		return nil
-	}
-	if _, ok := kubernetesapi.OpenAPIMustAsset[kubernetesOpenAPIVersion]; !ok {
-		return fmt.Errorf("the specified OpenAPI version is not built in")
 	}
 
 	if customSchema != nil {
